@@ -22,9 +22,27 @@ CONSISTENT = (RT.unique, RT.unique_minor_difference, RT.ambiguous)
 MODULES = [common, lrp, lra, jc, pv]
 
 
+class _SymMath:
+    """math module as seen by src.long_read_assigner under symbolic execution: fsum over exact reals is the plain sum (the
+    engine's reals are exact, so the result does not depend on the order either); everything else is the real math"""
+    def __getattr__(self, name):
+        import math
+        return getattr(math, name)
+
+    @staticmethod
+    def fsum(items):
+        items = list(items)
+        total = 0
+        for x in items:
+            total = total + x
+        return total
+
+
 def setup_symbolic():
     shims.install([common], ["float", "min", "max"])
     shims.install([lrp, lra, jc, pv], ["min", "max", "float"])
+    if "math" in lra.__dict__:
+        lra.math = _SymMath()
 
 
 def matching_params(preset, correction="default_ont"):
